@@ -10,6 +10,7 @@ G_UNITS = {
                   "HelperAttributeForCompareOp::verify", "HelperAttributesForCompareOp::verify", "bad_attr_1"],
     "cmp_select": ["build_partial_eq_expr", "build_eq_expr", "build_partial_ord_expr", "build_ord_expr", "build_hash_expr"],
     "entry": ["DeriveEntry::apply_dump"],
+    "cmp_bodies": ["build_partial_eq_body", "build_eq_body", "build_partial_ord_body", "build_ord_body", "build_hash_body", "build_compare_op"],
 }
 
 
